@@ -21,6 +21,7 @@ type c13Round struct {
 	LongOutage        bool     `json:"long_outage,omitempty"`
 	OnTick            bool     `json:"fault_on_a_keepalive_tick,omitempty"`
 	LostInPostConnect bool     `json:"new_session_lost_while_post_connect_runs,omitempty"`
+	AfterFailure      int      `json:"server_after_auth_failure,omitempty"` // 1 = ends the stream and closes, 2 = resets the connection
 }
 
 type c13Scenario struct {
@@ -88,6 +89,7 @@ func runC13(e *Engine, g G, o RunOpt) RunInfo {
 				rd.Attempts = append(rd.Attempts, []string{"permanent-tls-alert", "permanent-no-starttls"}[g.N("permanent-tls-kind", 2)])
 			} else {
 				rd.Attempts = append(rd.Attempts, "permanent-auth")
+				rd.AfterFailure = g.Weighted("after-failure", 5, 2, 3)
 			}
 			permanent = true
 		} else {
@@ -156,6 +158,7 @@ func runC13(e *Engine, g G, o RunOpt) RunInfo {
 					s.Resume = ResumeClose
 				case "permanent-auth":
 					s.AuthReply = AuthFailure
+					s.AuthFailDrop = rd.AfterFailure
 				case "permanent-tls-alert":
 					s.TLS13Only = true
 				case "permanent-no-starttls":
